@@ -11,6 +11,10 @@ mod eng_conc;
 mod eng_own;
 mod eng_vconc;
 mod eng_vstep;
+mod eng_rbox;
+
+#[global_allocator]
+static GLOBAL: eng_rbox::Counting = eng_rbox::Counting;
 
 use common::*;
 use std::path::PathBuf;
@@ -42,6 +46,7 @@ fn main() {
         "own" => eng_own::run(&a, &mut sink),
         "vconc" => eng_vconc::run(&a, &mut sink),
         "vstep" => eng_vstep::run(&a, &mut sink),
+        "rbox" => eng_rbox::run(&a, &mut sink),
         "obsasync" => eng_obs::run(&a, &mut sink, true),
         e => {
             eprintln!("unknown engine {e}");
